@@ -28,7 +28,8 @@ THEOREMS = ["C17_area_independent_of_vertex_order", "C17_centroid_independent_of
             "C17_true_area_and_centroid_partial", "C17_total_volume_is_sum",
             "C17_find_index_bisection_is_contract", "C17_select_picks_area_interval",
             "C17_select_off_by_one_refuted", "C17_emissivity_exact_for_constants",
-            "C17_sample_point_in_triangle", "C17_emissivity_unbiased_partial"]
+            "C17_sample_point_in_triangle", "C17_emissivity_unbiased_partial",
+            "C17_expectation_for_every_sample_count_partial", "C17_stratified_choice_refuted"]
 
 PI = 3.141592653589793          # the constant of voxels.pyx line 41
 F = Fraction
@@ -438,6 +439,100 @@ def search_sampling(impl, pts, rng, n_samples):
     return fails
 
 
+def exact_poly_mean(pts, kind, co):
+    """exact area-mean (Fraction) over the polygon of  co[0] + co[1]*r  ('r'),  co[0] + co[1]*z  ('z')  or
+    co[0] + co[1]*r*z  ('rz'), by the signed fan from vertex 0 and the triangle moment formulas"""
+    P = [(frac(x), frac(y)) for x, y in pts]
+    sa = sm = F(0)
+    for i in range(1, len(P) - 1):
+        a, b, c = P[0], P[i], P[i + 1]
+        t = _orient(a, b, c)           # 2 * signed area
+        sx, sy = a[0] + b[0] + c[0], a[1] + b[1] + c[1]
+        if kind == "r":
+            m = sx / 3
+        elif kind == "z":
+            m = sy / 3
+        else:                           # mean of x*y over a triangle = (sx*sy + sum x_i*y_i) / 12
+            m = (sx * sy + a[0] * a[1] + b[0] * b[1] + c[0] * c[1]) / 12
+        sa += t
+        sm += t * m
+    return frac(co[0]) + frac(co[1]) * sm / sa
+
+
+def search_expectation(impl, pts, rng, grid_samples, calls):
+    """'unbiased' as a statement about the EXPECTATION for this grid_samples: the mean over many independent
+    calls of emissivity_from_function (one raysect seed, then consecutive calls) against the exact area-mean of a
+    non-constant polynomial, 5.5 sigma of the empirical standard error; and the frequencies with which the
+    triangles are chosen over all calls against their area shares (6 sigma + 3)"""
+    try:
+        v, g = impl.geom(pts)
+    except ImplError as e:
+        return [e.args[0]]
+    stored = g["stored"]
+    tris = impl.triangles(stored)
+    kind = rng.choice(["r", "z", "rz"])
+    co = (dyadic(rng, -2, 2, 2), rng.choice([-2.0, -1.0, -0.5, 0.5, 1.0, 2.0]))
+    want = float(exact_poly_mean(pts, kind, co))
+    rseed = rng.randint(1, 2 ** 62)
+    info = {"polygon": pts, "grid_samples": grid_samples, "calls": calls, "raysect_seed": rseed,
+            "function": {"r": "%r + %r*r", "z": "%r + %r*z", "rz": "%r + %r*r*z"}[kind] % co,
+            "how": "seed(raysect_seed) once, then `calls` consecutive voxel.emissivity_from_function(f, grid_samples)"}
+    impl.crumb(dict(info, call="emissivity_from_function, repeated"))
+    xs, zs = [], []
+    c0, c1 = co
+    if kind == "r":
+        def f(x, y, z):
+            xs.append(x); zs.append(z)
+            return c0 + c1 * x
+    elif kind == "z":
+        def f(x, y, z):
+            xs.append(x); zs.append(z)
+            return c0 + c1 * z
+    else:
+        def f(x, y, z):
+            xs.append(x); zs.append(z)
+            return c0 + c1 * x * z
+    impl.seed(rseed)
+    vals = np.array([v.emissivity_from_function(f, grid_samples) for _ in range(calls)])
+    fails = []
+    if len(xs) != calls * grid_samples:
+        return [dict(info, claim="one evaluation of the function per sample", evaluations=len(xs))]
+    mean, se = float(vals.mean()), float(vals.std(ddof=1)) / math.sqrt(calls)
+    if abs(mean - want) > 5.5 * se + 1e-9 * (1 + abs(want)):
+        fails.append(dict(info, claim="the expectation of the estimate is the exact area-mean for every grid_samples "
+                                      "(mean over independent calls, 5.5 sigma)", mean_over_calls=mean, exact_area_mean=want,
+                          standard_error=se, deviation_in_sigma=(abs(mean - want) / se if se > 0 else float("inf"))))
+    # which triangle each sample fell in (vectorised barycentric test)
+    X, Z = np.array(xs), np.array(zs)
+    inside = []
+    for (a, b, c) in tris:
+        A, B, C = stored[a], stored[b], stored[c]
+        d = (B[0] - A[0]) * (C[1] - A[1]) - (B[1] - A[1]) * (C[0] - A[0])
+        if d == 0:
+            inside.append(np.zeros(len(X), dtype=bool))
+            continue
+        l1 = ((B[0] - X) * (C[1] - Z) - (B[1] - Z) * (C[0] - X)) / d
+        l2 = ((C[0] - X) * (A[1] - Z) - (C[1] - Z) * (A[0] - X)) / d
+        inside.append(np.minimum(np.minimum(l1, l2), 1 - l1 - l2) >= -1e-9)
+    inside = np.array(inside)
+    unique = inside.sum(axis=0) == 1
+    if (inside.sum(axis=0) == 0).any():
+        fails.append(dict(info, claim="every sample point lies inside the cross-section",
+                          outside=int((inside.sum(axis=0) == 0).sum())))
+    n_in = int(unique.sum())
+    area = exact_reference(pts)[0]
+    shares = [float(abs(_orient(*[tuple(map(frac, stored[i])) for i in t])) / 2 / area) for t in tris]
+    counts = [int((inside[j] & unique).sum()) for j in range(len(tris))]
+    for j, cnt in enumerate(counts):
+        sd = math.sqrt(n_in * shares[j] * (1 - shares[j]))
+        if abs(cnt - n_in * shares[j]) > 6 * sd + 3:
+            fails.append(dict(info, claim="each sample's triangle is chosen with probability area_j / area for every "
+                                          "grid_samples (frequencies over independent calls, 6 sigma)", triangle=j, hits=cnt,
+                              expected=n_in * shares[j], counts=counts, area_shares=shares))
+            break
+    return fails
+
+
 def search_grid(impl, polys):
     impl.crumb({"call": "ToroidalVoxelGrid(polygons).total_volume", "polygons": polys})
     try:
@@ -688,6 +783,24 @@ def run(ctx):
         n_search_stat += 1
         if len(search_fails) > 20:
             break
+    # expectation for small grid_samples: many independent calls per (polygon, grid_samples)
+    exp_pool = []
+    for cls, exact, pts in polys:
+        if cls in ("quad", "star", "template", "axis", "convex", "corpus") and len(pts) >= 4:
+            P = [tuple(map(frac, q)) for q in pts]
+            ars = {abs(_orient(P[0], P[i], P[i + 1])) for i in range(1, len(P) - 1)}
+            if len(ars) > 1:
+                exp_pool.append(pts)
+    exp_pool = seeds[:3] + exp_pool[:(12 if quick else 90)]
+    n_calls = 4000 if quick else 8000
+    exp_counts = {}
+    for k, pts in enumerate(exp_pool):
+        vs = variants(pts)
+        for gs in ([1, 3, 10], [2, 4, 10], [1, 5, 10])[k % 3] if quick else (1, 2, 3, 4, 5, 10):
+            if len(search_fails) > 20:
+                break
+            search_fails += search_expectation(impl, vs[rng.randrange(len(vs))], rng, gs, n_calls)
+            exp_counts[gs] = exp_counts.get(gs, 0) + 1
     for m in meta:
         if m["kind"] == "error":
             want = 1 if len(m["polygon"]) < 3 else (2 if any(x < 0 for x, _ in m["polygon"]) else 0)
@@ -724,14 +837,17 @@ def run(ctx):
                              triangles_per_emissivity_case=tri_hist, sample_draws=n_draws, grid_sizes=grid_sizes,
                              error_cases=n_err, search_geometry_polygons=n_search_geom,
                              search_sampling_polygons=n_search_stat,
-                             search_samples_per_polygon=4000 if quick else 20000),
+                             search_samples_per_polygon=4000 if quick else 20000,
+                             expectation_tests_by_grid_samples=exp_counts, expectation_calls_per_test=n_calls),
         "tolerance": {"stored vertices, error kind, triangulation shape, triangle orientation, sum of triangle areas": "exact",
                       "area": "2^-48 * n * sum(|x_i y_j| + |x_j y_i|) / 2   (32 x first-order summation bound)",
                       "centroid": "2^-48 * n * (num_scale / (3|S|) + |c| * area_scale / |S|) + 2^-50 |c|",
                       "volume": "2 pi (tol_cx * area + |cx| tol_area) + 2^-50 |V|",
                       "sample point": "2^-40 * max|coordinate|; lookup margin 2^-40 * area (else ambiguous)",
                       "emissivity mean": "2^-38 * (|c0| + (|c1|+|c2|) max|coordinate|)", "grid total": "2^-40 relative",
-                      "statistical (search only)": "5 sigma"},
+                      "statistical (search only)": "5 sigma (large-sample mean and hit counts); expectation for small "
+                                                   "grid_samples: 5.5 sigma of the empirical standard error over independent "
+                                                   "calls, triangle frequencies 6 sigma + 3"},
         "partial": ["true area/centroid: algebraic identity with fan and every ear-clipping triangulation proved; that such a "
                     "decomposition partitions a simple polygon is classical and not proved",
                     "unbiasedness: interval lengths, sum of triangle areas, expectation for linear and constant emissivities "
